@@ -99,7 +99,8 @@ package deflate
 // dynShape: facts that never change after construction (they survive a failed write).
 //@ pure dynShape(c *dynCompressor) bool = (c.windowSize == 4096 || c.windowSize == 32768) && len(c.buffer) == 2*c.windowSize+261 && cap(c.tokens) >= 32768 && len(c.buf.output) == 8192 && c.hdr != nil && c.litGen != nil && c.distGen != nil && lzShape(c.lz77, c.windowSize) && histAlias(c)
 // dynOK: representation invariant between public operations (no sticky error).
-//@ pure dynOK(c *dynCompressor) bool = dynShape(c) && c.w != nil && 0 <= c.idx && c.idx <= c.end && c.end <= 2*c.windowSize+258 && c.idx <= c.processed && c.processed <= 4611686018427387904 && len(c.tokens) < 32767 && bufOK(&c.buf) && c.buf.idx == 0 && c.buf.bitLen < 64
+//@ pure dynPos(c *dynCompressor) bool = (typeis(c.lz77, *level1context) ==> posInv(c.lz77.(*level1context).table[:], c.windowSize, c.processed - c.idx, c.idx, 0)) && (typeis(c.lz77, *level2context) ==> posInv(c.lz77.(*level2context).table[:], c.windowSize, c.processed - c.idx, c.idx, 0))
+//@ pure dynOK(c *dynCompressor) bool = dynShape(c) && dynPos(c) && c.w != nil && 0 <= c.idx && c.idx <= c.end && c.end <= 2*c.windowSize+258 && len(c.tokens) < 32767 && bufOK(&c.buf) && c.buf.idx == 0 && c.buf.bitLen < 64
 // dynFresh: the state NewDynCompressor establishes and Reset must re-establish.
 //@ pure dynFresh(c *dynCompressor) bool = dynOK(c) && c.idx == 0 && c.end == 0 && c.processed == 0 && len(c.tokens) == 0 && bufZero(&c.buf) && lzZero(c.lz77)
 
@@ -129,14 +130,22 @@ package deflate
 //@   ensures[C09 trigger-iff-full] trigger == (c.end == 2*c.windowSize+258)
 //@   ensures[C09 progress] n == len(data) || trigger
 
+//@ func (*dynCompressor).encodeBlock
+//@   trusted "not yet verified: code generation, block header and token encoding below this call"
+//@   requires dynShape(c) && c.w != nil && len(c.tokens) <= 32768 && bufOK(&c.buf) && c.buf.bitLen < 64
+//@   modifies c.tokens, c.tokens[*], c.buf, c.buf.output[*], **c.hdr, **c.litGen, **c.distGen, *c.hist, extWrites
+//@   ensures dynShape(c) && same(c.w)
+//@   ensures result == nil ==> len(c.tokens) == 0 && bufOK(&c.buf) && c.buf.idx == 0 && c.buf.bitLen < 64 && (last ==> c.buf.bitLen == 0)
+
 //@ func (*dynCompressor).compressBlock
-//@   trusted "not yet verified: match finding and block encoding below this call (lz77, genHuffCodes, header, token encoding)"
 //@   requires dynOK(w)
-//@   modifies **w, extWrites
-//@   ensures dynShape(w) && w.w == old(w.w) && w.windowSize == old(w.windowSize)
-//@   ensures err == nil ==> dynOK(w)
-//@   ensures err == nil && flush ==> w.idx == w.end && len(w.tokens) == 0
-//@   ensures err == nil && flush && finalBlock ==> w.buf.bitLen == 0
+//@   modifies w.processed, w.idx, w.tokens, w.tokens[*], w.buf, w.buf.output[*], **w.hdr, **w.litGen, **w.distGen, **w.lz77, extWrites
+//@   ensures[C14 C16] dynShape(w) && same(w.w) && same(w.windowSize) && same(w.end)
+//@   ensures[C14 C16] err == nil && !(finalBlock && w.end == 0) ==> dynOK(w)
+//@   ensures[C10 consumed-on-flush] err == nil && flush && !(finalBlock && w.end == 0) ==> w.idx == w.end && len(w.tokens) == 0
+//@   ensures[C01 C10 final-aligned] err == nil && flush && finalBlock ==> w.buf.bitLen == 0
+//@   ensures[C09 no-flush-progress] err == nil && !flush ==> w.idx + 8 >= w.end
+//@   loop 1 invariant dynShape(w) && dynPos(w) && w.w != nil && 0 <= w.idx && w.idx <= w.end && w.end <= 2*w.windowSize+258 && len(w.tokens) < 32767 && bufOK(&w.buf) && w.buf.idx == 0 && w.buf.bitLen < 64 && same(w.w) && same(w.windowSize) && same(w.end) && !(finalBlock && w.end == 0)
 
 //@ func (*dynCompressor).Compress
 //@   requires dynOK(w)
@@ -154,7 +163,7 @@ package deflate
 //@   requires dynOK(c)
 //@   modifies **c, extWrites
 //@   ensures[C14 C16] dynShape(c) && c.w == old(c.w) && c.windowSize == old(c.windowSize)
-//@   ensures[C01 C16 finals] result == nil ==> dynOK(c) && c.idx == c.end && len(c.tokens) == 0 && c.buf.bitLen == 0
+//@   ensures[C01 C16 finals] result == nil ==> c.buf.bitLen == 0 && (c.end != 0 ==> dynOK(c) && c.idx == c.end && len(c.tokens) == 0)
 
 // ---------------------------------------------------------------------------
 // huffmanOnly (level -2)
@@ -325,7 +334,7 @@ package deflate
 // posInv: stored positions never lie ahead of the current position while the window has not been slid
 // (before the first slide positions are exact: no 16-bit wrap below 32768, processed == offset).
 //@ pure posInv(table []uint16, historySize int, relative int, offset int, slack int) bool = offset >= historySize || (relative == 0 && (forall h :: 0 <= h && h < len(table) ==> int(table[h]) <= offset + slack))
-//@ pure lzPre(table []uint16, mask uint32, historySize int, input []byte, processed int, offset int, tokens []token, maxToken int) bool = (mask == 4095 || mask == 32767) && len(table) == int(mask)+1 && (historySize == 4096 || historySize == 32768) && len(input) <= 65794 && 0 <= offset && offset <= len(input) && offset <= processed && processed <= 4611686018427387904 && 0 <= maxToken && maxToken <= 32767 && len(tokens) <= maxToken && cap(tokens) >= 32768
+//@ pure lzPre(table []uint16, mask uint32, historySize int, input []byte, processed int, offset int, tokens []token, maxToken int) bool = (mask == 4095 || mask == 32767) && len(table) == int(mask)+1 && (historySize == 4096 || historySize == 32768) && len(input) <= 65794 && 0 <= offset && offset <= len(input) && 0 <= maxToken && maxToken <= 32767 && len(tokens) <= maxToken && cap(tokens) >= 32768
 
 //@ func lz77
 //@   requires lzPre(table, mask, historySize, input, processed, offset, tokens, maxToken) && hist != nil
@@ -335,7 +344,7 @@ package deflate
 //@   ensures[C01 C16 progress] old(offset) <= nOffset && nOffset <= len(input) && len(tokens) <= len(ntokens) && len(ntokens) <= maxToken + 1 && cap(ntokens) == cap(tokens)
 //@   ensures[C01 C10 consumed] len(ntokens) <= maxToken ==> (flush ==> nOffset == len(input)) && (!flush ==> nOffset + 8 >= len(input))
 //@   ensures[C01 pos-inv] posInv(table, historySize, processed - old(offset), nOffset, 0)
-//@   assert call append 3 [C01 C19 match-token] 4 <= matchLength && matchLength <= 258 && 1 <= dist && int(dist) <= historySize && int(dist) <= offset && offset + matchLength <= len(input)
+//@   assert call append 3 [C01 C19 match-token] 3 <= matchLength && matchLength <= 258 && 1 <= dist && int(dist) <= historySize && int(dist) <= offset && offset + matchLength <= len(input)
 //@   assert call append 3 [C01 match-bytes] forall k :: 0 <= k && k < matchLength ==> input[offset-int(dist)+k] == input[offset+k]
 //@   assert call append 3 [C01 C19 match-symbols] lengthSymbol == matchLength + 254 && distSymbol < 30 && extraBits < uint32(1)<<distXBits(distSymbol) && distBase(distSymbol) + extraBits == dist
 //@   assert call append 2 [C01 C19 run-token] 1 <= dist && int(dist) <= historySize && int(dist) <= offset - 258 && lengthSymbol == 512 && distSymbol < 30 && extraBits < uint32(1)<<distXBits(distSymbol) && distBase(distSymbol) + extraBits == dist
@@ -349,3 +358,60 @@ package deflate
 //@   loop 3 invariant forall k :: 0 <= k && k < matchLength ==> input[offset-int(dist)+k] == input[offset+k]
 //@   loop 4 invariant 0 <= i && i <= 3 && posInv(table, historySize, relative, offset, 2)
 //@   loop 5 invariant old(offset) <= offset && offset <= len(input) && len(tokens) <= maxToken && sameobj(tokens, old(tokens)) && cap(tokens) == old(cap(tokens)) && len(tokens) >= old(len(tokens)) && posInv(table, historySize, relative, offset, 0) && offset + 8 >= len(input)
+
+// ---------------------------------------------------------------------------
+// lz77compressor implementations (dispatch to lz77 / assembly)
+// ---------------------------------------------------------------------------
+
+//@ pure genPre1(c *level1context, input []byte, processed int, offset int, tokens []token, maxToken int) bool = (c.windowLevel == 12 || c.windowLevel == 15) && len(input) <= 65794 && 0 <= offset && offset <= len(input) && 4 <= maxToken && maxToken <= 32767 && len(tokens) <= maxToken && cap(tokens) >= 32768 && posInv(c.table[:], 1<<uint64(c.windowLevel), processed - offset, offset, 0)
+//@ pure genPre2(c *level2context, input []byte, processed int, offset int, tokens []token, maxToken int) bool = (c.windowLevel == 12 || c.windowLevel == 15) && len(input) <= 65794 && 0 <= offset && offset <= len(input) && 4 <= maxToken && maxToken <= 32767 && len(tokens) <= maxToken && cap(tokens) >= 32768 && posInv(c.table[:], 1<<uint64(c.windowLevel), processed - offset, offset, 0)
+
+//@ func (*level1context).generate
+//@   requires genPre1(c, input, processed, offset, tokens, maxToken)
+//@   modifies c.table, c.hist, tokens[*]
+//@   alias ntokens tokens
+//@   ensures[C01 C16 progress] old(offset) <= nOffset && nOffset <= len(input) && len(tokens) <= len(ntokens) && len(ntokens) <= maxToken + 1 && cap(ntokens) == cap(tokens) && same(c.windowLevel)
+//@   ensures[C01 C10 consumed] len(ntokens) <= maxToken ==> (flush ==> nOffset == len(input)) && (!flush ==> nOffset + 8 >= len(input))
+//@   ensures[C01 pos-inv] posInv(c.table[:], 1<<uint64(c.windowLevel), processed - old(offset), nOffset, 0)
+
+//@ func (*level2context).generate
+//@   requires genPre2(c, input, processed, offset, tokens, maxToken)
+//@   modifies c.table, c.hist, tokens[*]
+//@   alias ntokens tokens
+//@   ensures[C01 C16 progress] old(offset) <= nOffset && nOffset <= len(input) && len(tokens) <= len(ntokens) && len(ntokens) <= maxToken + 1 && cap(ntokens) == cap(tokens) && same(c.windowLevel)
+//@   ensures[C01 C10 consumed] len(ntokens) <= maxToken ==> (flush ==> nOffset == len(input)) && (!flush ==> nOffset + 8 >= len(input))
+//@   ensures[C01 pos-inv] posInv(c.table[:], 1<<uint64(c.windowLevel), processed - old(offset), nOffset, 0)
+
+// Assembly match finders (lz77_amd64.s): assumed to satisfy the contract of the Go lz77 for their window and table size.
+//@ func lz77Asm4kL12V1
+//@   trusted "assembly (lz77_amd64.s): assumed equivalent to lz77 with mask 4095, historySize 4096, never flushing the tail"
+//@   requires base != nil && base.windowLevel == 12 && len(input) <= 65794 && 0 <= offset && offset <= len(input) && 0 <= maxToken && maxToken <= 32763 && len(tokens) + 4 <= cap(tokens) && cap(tokens) >= 32768
+//@   requires[C01 pos-inv] posInv(base.table[:], 4096, processed - offset, offset, 0)
+//@   modifies base.table, base.hist, tokens[*]
+//@   alias ntokens tokens
+//@   ensures old(offset) <= nOffset && nOffset <= len(input) && len(tokens) <= len(ntokens) && len(ntokens) <= maxToken + 4 && cap(ntokens) == cap(tokens)
+//@   ensures posInv(base.table[:], 4096, processed - old(offset), nOffset, 0)
+//@ func lz77Asm32kL12V1
+//@   trusted "assembly (lz77_amd64.s): assumed equivalent to lz77 with mask 4095, historySize 32768, never flushing the tail"
+//@   requires base != nil && base.windowLevel == 15 && len(input) <= 65794 && 0 <= offset && offset <= len(input) && 0 <= maxToken && maxToken <= 32763 && len(tokens) + 4 <= cap(tokens) && cap(tokens) >= 32768
+//@   requires[C01 pos-inv] posInv(base.table[:], 32768, processed - offset, offset, 0)
+//@   modifies base.table, base.hist, tokens[*]
+//@   alias ntokens tokens
+//@   ensures old(offset) <= nOffset && nOffset <= len(input) && len(tokens) <= len(ntokens) && len(ntokens) <= maxToken + 4 && cap(ntokens) == cap(tokens)
+//@   ensures posInv(base.table[:], 32768, processed - old(offset), nOffset, 0)
+//@ func lz77Asm4kL15V1
+//@   trusted "assembly (lz77_amd64.s): assumed equivalent to lz77 with mask 32767, historySize 4096, never flushing the tail"
+//@   requires base != nil && base.windowLevel == 12 && len(input) <= 65794 && 0 <= offset && offset <= len(input) && 0 <= maxToken && maxToken <= 32763 && len(tokens) + 4 <= cap(tokens) && cap(tokens) >= 32768
+//@   requires[C01 pos-inv] posInv(base.table[:], 4096, processed - offset, offset, 0)
+//@   modifies base.table, base.hist, tokens[*]
+//@   alias ntokens tokens
+//@   ensures old(offset) <= nOffset && nOffset <= len(input) && len(tokens) <= len(ntokens) && len(ntokens) <= maxToken + 4 && cap(ntokens) == cap(tokens)
+//@   ensures posInv(base.table[:], 4096, processed - old(offset), nOffset, 0)
+//@ func lz77Asm32kL15V1
+//@   trusted "assembly (lz77_amd64.s): assumed equivalent to lz77 with mask 32767, historySize 32768, never flushing the tail"
+//@   requires base != nil && base.windowLevel == 15 && len(input) <= 65794 && 0 <= offset && offset <= len(input) && 0 <= maxToken && maxToken <= 32763 && len(tokens) + 4 <= cap(tokens) && cap(tokens) >= 32768
+//@   requires[C01 pos-inv] posInv(base.table[:], 32768, processed - offset, offset, 0)
+//@   modifies base.table, base.hist, tokens[*]
+//@   alias ntokens tokens
+//@   ensures old(offset) <= nOffset && nOffset <= len(input) && len(tokens) <= len(ntokens) && len(ntokens) <= maxToken + 4 && cap(ntokens) == cap(tokens)
+//@   ensures posInv(base.table[:], 32768, processed - old(offset), nOffset, 0)
